@@ -206,3 +206,419 @@ Init(P, env) ==
     loaded |-> <<>>,
     cfg |-> [assert |-> env.assert, profile |-> env.profile],
     log |-> <<>>, ret |-> <<>>, st |-> "run", why |-> "", steps |-> 0, meta |-> 0 ]
+
+\* ================================================================ coercions and pure operators
+\* <<"ok"|"no"|"unspec", hi, lo>>
+ToNum(v) == IF v.t = "num" THEN <<"ok", v.hi, v.lo>>
+            ELSE IF v.t = "str"
+                 THEN LET r == StrToNumber(v.s) IN
+                      IF r[1] THEN <<"ok", r[2], r[3]>> ELSE IF StrNumUnsure(v.s) THEN <<"unspec", 0, 0>> ELSE <<"no", 0, 0>>
+            ELSE <<"no", 0, 0>>
+Half == FOfDecimal("0.5")
+\* <<definite, double>>
+Arith(op, x, y) ==
+  CASE op = "+" -> <<TRUE, FAdd(x, y)>>
+    [] op = "-" -> <<TRUE, FSub(x, y)>>
+    [] op = "*" -> <<TRUE, FMul(x, y)>>
+    [] op = "/" -> <<TRUE, FDiv(x, y)>>
+    [] op = "//" -> <<TRUE, FFloor(FDiv(x, y))>>
+    [] op = "%" -> LET a == FMod(x, y) IN <<a = FModLuau(x, y), a>>              \* 5.1 formula vs Luau fmod-based
+    [] op = "^" -> LET p == FPow(x, y) IN
+                   IF y = FOfInt(2) THEN <<p = FMul(x, x), p>>                     \* Luau fast paths for constant exponents
+                   ELSE IF y = FOfInt(3) THEN <<p = FMul(FMul(x, x), x), p>>
+                   ELSE IF y = Half THEN <<p = FSqrt(x), p>>
+                   ELSE <<TRUE, p>>
+    [] OTHER -> <<FALSE, x>>
+ArithEvent(op) == CASE op = "+" -> "__add" [] op = "-" -> "__sub" [] op = "*" -> "__mul" [] op = "/" -> "__div"
+                    [] op = "%" -> "__mod" [] op = "^" -> "__pow" [] op = "//" -> "__idiv" [] op = ".." -> "__concat"
+                    [] op = "<" -> "__lt" [] op = "<=" -> "__le" [] op = "==" -> "__eq" [] OTHER -> ""
+ArithOps == {"+", "-", "*", "/", "%", "^", "//"}
+
+\* ================================================================ calls
+RECURSIVE FindReq(_, _, _), FindLoaded(_, _, _)
+FindReq(req, s, i) == IF i > Len(req) THEN 0 ELSE IF req[i].s = s THEN i ELSE FindReq(req, s, i + 1)
+FindLoaded(ld, s, i) == IF i > Len(ld) THEN 0 ELSE IF ld[i].s = s THEN i ELSE FindLoaded(ld, s, i + 1)
+NeedsScope(P, b) == \E i \in 1..Len(Node(P, b).l) : Node(P, Node(P, b).l[i]).k \in {"local", "localfn"}
+\* start executing the statements of block b; restore env `renv` when the block is left
+EnterBlock(P, m, b, renv) ==
+  LET l == Node(P, b).l IN
+  IF l = <<>> THEN Go([m EXCEPT !.env = renv], "N", 0, <<>>)
+  ELSE Go(PushK(m, Frame("blk", b, 1, <<>>, renv)), "X", l[1], <<>>)
+ExecBlock(P, m, b) == IF NeedsScope(P, b) THEN EnterBlock(P, NewScope(m), b, m.env) ELSE EnterBlock(P, m, b, m.env)
+
+\* ---- string.format
+RECURSIVE FmtGo(_, _, _, _, _)
+FmtGo(segs, i, args, ai, acc) ==      \* <<"ok"|"err"|"unspec", string>>
+  IF i > Len(segs) THEN <<"ok", acc>>
+  ELSE LET k == segs[i][1] IN
+       IF k = "lit" THEN FmtGo(segs, i + 1, args, ai, acc \o segs[i][2])
+       ELSE IF k = "bad" THEN <<"unspec", "string.format: unsupported directive">>
+       ELSE IF ai > Len(args) THEN <<"err", "string.format: missing argument">>
+       ELSE LET v == args[ai] IN
+            IF k = "s" THEN
+              IF v.t = "str" THEN FmtGo(segs, i + 1, args, ai + 1, acc \o v.s)
+              ELSE IF v.t = "num" THEN LET r == NumToStr(D(v)) IN
+                   IF r[1] THEN FmtGo(segs, i + 1, args, ai + 1, acc \o r[2]) ELSE <<"unspec", "number formatting">>
+              ELSE <<"unspec", "string.format %s of a non-string (5.1 errors, Luau converts)">>
+            ELSE LET n == ToNum(v) IN
+                 IF n[1] = "no" THEN <<"err", "string.format: number expected">>
+                 ELSE IF n[1] = "unspec" THEN <<"unspec", "string->number coercion">>
+                 ELSE LET d == <<n[2], n[3]>> IN LET r == NumToStr(d) IN
+                      IF FEq(d, Zero) THEN FmtGo(segs, i + 1, args, ai + 1, acc \o "0")
+                      ELSE IF r[1] /\ FEq(FFloor(d), d) /\ FEq(FSub(d, d), Zero)
+                      THEN FmtGo(segs, i + 1, args, ai + 1, acc \o r[2])
+                      ELSE <<"unspec", "string.format %d of a non-integer or huge number">>
+
+\* ---- next
+NextOf(m, tid, k) ==                   \* <<"ok"|"unspec", values>>
+  IF tid <= DebugId THEN <<"unspec", <<>>>> ELSE
+  LET t == m.heap[tid] IN
+  LET live == LiveIdx(t.vs, 1, <<>>) IN LET n == Len(live) IN
+  IF k.t = "nil" THEN
+    IF n = 0 THEN <<"ok", <<Nil>>>>
+    ELSE IF n = 1 \/ AscFrom(t, live, 1) THEN <<"ok", <<t.ks[live[1]], t.vs[live[1]]>>>>
+    ELSE <<"unspec", <<>>>>
+  ELSE LET i == KeyIndex(t.ks, NormKey(k), 1) IN
+       IF i = 0 \/ (i # 0 /\ t.vs[i].t = "nil") THEN <<"unspec", <<>>>>
+       ELSE IF n = 1 THEN <<"ok", <<Nil>>>>
+       ELSE IF AscFrom(t, live, 1)
+            THEN LET j == IntOf(k) IN
+                 IF j < n THEN <<"ok", <<t.ks[live[j + 1]], t.vs[live[j + 1]]>>>> ELSE <<"ok", <<Nil>>>>
+            ELSE <<"unspec", <<>>>>
+
+RECURSIVE MaxMin(_, _, _, _)
+MaxMin(ismax, ds, i, acc) ==
+  IF i > Len(ds) THEN acc
+  ELSE MaxMin(ismax, ds, i + 1, IF (ismax /\ FLt(acc, ds[i])) \/ (~ismax /\ FLt(ds[i], acc)) THEN ds[i] ELSE acc)
+AllNums(args) == \A i \in 1..Len(args) : args[i].t = "num"
+RECURSIVE InsertShift(_, _, _, _)
+InsertShift(t, i, pos, v) ==           \* t[i] = t[i-1] for i = n+1 down to pos+1, then t[pos] = v
+  IF i = pos THEN RawSetT(t, NumI(pos), v)
+  ELSE InsertShift(RawSetT(t, NumI(i), RawGetT(t, NumI(i - 1))), i - 1, pos, v)
+RECURSIVE ConcatGo(_, _, _, _, _)
+ConcatGo(t, i, n, sep, acc) ==         \* <<ok, string>>
+  IF i > n THEN <<TRUE, acc>>
+  ELSE LET v == RawGetT(t, NumI(i)) IN
+       LET s == IF v.t = "str" THEN <<TRUE, v.s>> ELSE IF v.t = "num" THEN NumToStr(D(v)) ELSE <<FALSE, "">> IN
+       IF ~s[1] THEN <<FALSE, "">>
+       ELSE ConcatGo(t, i + 1, n, sep, acc \o (IF i > 1 THEN sep ELSE "") \o s[2])
+
+RECURSIVE Call(_, _, _, _)
+CallMeta(P, m, h, args) == Call(P, [m EXCEPT !.meta = @ + 1], h, args)
+\* push a frame that post-processes the results of the call
+CallWith(P, m, fk, h, args) == Call(P, PushK(m, Frame(fk, 0, 0, <<>>, m.env)), h, args)
+CallMetaWith(P, m, fk, h, args) == CallMeta(P, PushK(m, Frame(fk, 0, 0, <<>>, m.env)), h, args)
+
+\* tostring semantics; delivers <<Str(..)>> to the top frame
+ToStrStep(P, m, v) ==
+  CASE v.t = "str"  -> Ret1(m, v)
+    [] v.t = "nil"  -> Ret1(m, Str("nil"))
+    [] v.t = "bool" -> Ret1(m, Str(IF v.hi = 1 THEN "true" ELSE "false"))
+    [] v.t = "num"  -> LET r == NumToStr(D(v)) IN IF r[1] THEN Ret1(m, Str(r[2])) ELSE Unspec(m, "number formatting: " \o r[2])
+    [] v.t = "tab"  -> LET h == Meta(m, v, "__tostring") IN
+                       IF h.t = "nil" THEN Unspec(m, "tostring(table)")
+                       ELSE CallMetaWith(P, m, "tostr", h, <<v>>)
+    [] OTHER -> Unspec(m, "tostring(function)")
+
+CallBi(P, m, name, args) ==
+  LET a1 == Nth(args, 1) IN LET a2 == Nth(args, 2) IN LET a3 == Nth(args, 3) IN LET na == Len(args) IN
+  CASE name = "setmetatable" ->
+         IF na < 2 \/ a1.t # "tab" \/ a2.t \notin {"tab", "nil"} THEN Err(m, "bad argument to setmetatable")
+         ELSE IF a1.hi <= DebugId THEN Unspec(m, "setmetatable on the global/library table")
+         ELSE IF MetaT(m, a1.hi, "__metatable").t # "nil" THEN Unspec(m, "__metatable field")
+         ELSE Ret1([m EXCEPT !.heap[a1.hi].mt = IF a2.t = "tab" THEN a2.hi ELSE 0], a1)
+    [] name = "getmetatable" ->
+         IF na < 1 THEN Err(m, "bad argument to getmetatable")
+         ELSE IF a1.t = "str" THEN Unspec(m, "getmetatable(string)")
+         ELSE IF a1.t # "tab" \/ m.heap[a1.hi].mt = 0 THEN Ret1(m, Nil)
+         ELSE IF MetaT(m, a1.hi, "__metatable").t # "nil" THEN Unspec(m, "__metatable field")
+         ELSE Ret1(m, Tab(m.heap[a1.hi].mt))
+    [] name = "rawget" ->
+         IF na < 2 \/ a1.t # "tab" THEN Err(m, "bad argument to rawget")
+         ELSE IF RawGetUnmodelled(m, a1.hi, a2) THEN Unspec(m, "unmodelled library member")
+         ELSE Ret1(m, RawGet(m, a1.hi, a2))
+    [] name = "rawset" ->
+         IF na < 3 \/ a1.t # "tab" THEN Err(m, "bad argument to rawset")
+         ELSE IF a2.t = "nil" \/ IsNaNV(a2) THEN Err(m, "table index is nil or NaN")
+         ELSE Ret1([m EXCEPT !.heap[a1.hi] = RawSetT(@, a2, a3)], a1)
+    [] name = "rawequal" -> IF na < 2 THEN Err(m, "bad argument to rawequal") ELSE Ret1(m, Bool(RawEq(a1, a2)))
+    [] name = "rawlen" -> Unspec(m, "rawlen does not exist in Lua 5.1")
+    [] name = "select" ->
+         IF na < 1 THEN Err(m, "bad argument to select")
+         ELSE IF a1.t = "str" /\ a1.s = "#" THEN Ret1(m, NumI(na - 1))
+         ELSE IF a1.t = "num" THEN
+              IF ~IsIntV(a1) THEN Unspec(m, "select with a non-integer index")
+              ELSE LET n == IntOf(a1) IN
+                   IF n < 0 THEN Unspec(m, "select with a negative index")
+                   ELSE IF n = 0 THEN Err(m, "bad argument #1 to select (index out of range)")
+                   ELSE RetV(m, IF n + 1 > na THEN <<>> ELSE SubSeq(args, n + 1, na))
+         ELSE IF a1.t = "str" /\ ToNum(a1)[1] # "no" THEN Unspec(m, "select with a numeric string")
+         ELSE Err(m, "bad argument #1 to select")
+    [] name = "type" -> IF na < 1 THEN Err(m, "bad argument to type") ELSE Ret1(m, Str(TypeName(a1)))
+    [] name = "tostring" -> IF na < 1 THEN Err(m, "bad argument to tostring") ELSE ToStrStep(P, m, a1)
+    [] name = "tonumber" ->
+         IF na < 1 THEN Err(m, "bad argument to tonumber")
+         ELSE IF a2.t # "nil" THEN Unspec(m, "tonumber with a base")
+         ELSE LET n == ToNum(a1) IN
+              IF n[1] = "ok" THEN Ret1(m, NumD(<<n[2], n[3]>>))
+              ELSE IF n[1] = "unspec" THEN Unspec(m, "string->number coercion: " \o a1.s)
+              ELSE Ret1(m, Nil)
+    [] name = "ipairs" ->
+         IF na < 1 THEN Err(m, "bad argument to ipairs")
+         ELSE IF a1.t # "tab" THEN Unspec(m, "ipairs of a non-table")
+         ELSE IF m.heap[a1.hi].mt # 0 THEN Unspec(m, "ipairs of a table with a metatable")
+         ELSE IF a1.hi <= DebugId THEN Unspec(m, "ipairs of the global/library table")
+         ELSE RetV(m, <<Bi("ipairs_iter"), a1, NumI(0)>>)
+    [] name = "ipairs_iter" ->
+         IF a1.t # "tab" \/ ~IsIntV(a2) THEN Err(m, "bad argument to the ipairs iterator")
+         ELSE IF m.heap[a1.hi].mt # 0 THEN Unspec(m, "ipairs of a table with a metatable")
+         ELSE LET i == IntOf(a2) + 1 IN LET v == RawGetT(m.heap[a1.hi], NumI(i)) IN
+              IF v.t = "nil" THEN RetV(m, <<>>) ELSE RetV(m, <<NumI(i), v>>)
+    [] name = "next" ->
+         IF na < 1 \/ a1.t # "tab" THEN Err(m, "bad argument to next")
+         ELSE LET r == NextOf(m, a1.hi, a2) IN
+              IF r[1] = "ok" THEN RetV(m, r[2]) ELSE Unspec(m, "next: traversal order")
+    [] name = "pairs" ->
+         IF na < 1 THEN Err(m, "bad argument to pairs")
+         ELSE IF a1.t # "tab" THEN Unspec(m, "pairs of a non-table")
+         ELSE IF MetaT(m, a1.hi, "__pairs").t # "nil" \/ MetaT(m, a1.hi, "__iter").t # "nil" THEN Unspec(m, "__pairs/__iter")
+         ELSE RetV(m, <<Bi("next"), a1, Nil>>)
+    [] name = "unpack" ->
+         IF na < 1 \/ a1.t # "tab" THEN Err(m, "bad argument to unpack")
+         ELSE IF a1.hi <= DebugId THEN Unspec(m, "unpack of the global/library table")
+         ELSE LET t == m.heap[a1.hi] IN
+              LET lo == IF a2.t = "nil" THEN NumI(1) ELSE a2 IN
+              LET bd == IF a3.t = "nil" THEN Border(t) ELSE 0 IN
+              IF a3.t = "nil" /\ bd < 0 THEN Unspec(m, "unpack: border of a table with holes")
+              ELSE LET hi == IF a3.t = "nil" THEN NumI(bd) ELSE a3 IN
+                   IF lo.t # "num" \/ hi.t # "num" THEN
+                        (IF ToNum(lo)[1] = "no" \/ ToNum(hi)[1] = "no" THEN Err(m, "bad argument to unpack") ELSE Unspec(m, "unpack with string bounds"))
+                   ELSE IF ~IsIntV(lo) \/ ~IsIntV(hi) THEN Unspec(m, "unpack with non-integer bounds")
+                   ELSE LET i == IntOf(lo) IN LET j == IntOf(hi) IN
+                        IF j - i >= 200 THEN Unspec(m, "unpack: too many results")
+                        ELSE RetV(m, [x \in 1..(IF j < i THEN 0 ELSE j - i + 1) |-> RawGetT(t, NumI(i + x - 1))])
+    [] name = "assert" ->
+         IF m.cfg.assert = "identity" THEN RetV(m, args)
+         ELSE IF na < 1 THEN Err(m, "bad argument to assert")
+         ELSE IF Truthy(a1) THEN RetV(m, args) ELSE Err(m, "assertion failed")
+    [] name = "error" -> Err(m, "error called" \o (IF a1.t = "str" THEN ": " \o a1.s ELSE ""))
+    [] name = "pcall" -> Unspec(m, "pcall is not modelled")
+    [] name = "math.floor" \/ name = "math.sqrt" \/ name = "math.abs" ->
+         LET n == ToNum(a1) IN
+         IF na < 1 \/ n[1] = "no" THEN Err(m, "bad argument to " \o name)
+         ELSE IF n[1] = "unspec" THEN Unspec(m, "string->number coercion")
+         ELSE LET d == <<n[2], n[3]>> IN
+              Ret1(m, NumD(CASE name = "math.floor" -> FFloor(d) [] name = "math.sqrt" -> FSqrt(d)
+                             [] OTHER -> IF FSignBit(d) THEN FNeg(d) ELSE d))
+    [] name = "math.max" \/ name = "math.min" ->
+         IF na < 1 THEN Err(m, "bad argument to " \o name)
+         ELSE IF ~AllNums(args) THEN
+              (IF \E i \in 1..na : ToNum(args[i])[1] = "no" THEN Err(m, "bad argument to " \o name) ELSE Unspec(m, name \o " with string arguments"))
+         ELSE Ret1(m, NumD(MaxMin(name = "math.max", [i \in 1..na |-> D(args[i])], 2, D(a1))))
+    [] name = "string.format" ->
+         IF na < 1 \/ a1.t \notin {"str", "num"} THEN Err(m, "bad argument to string.format")
+         ELSE IF a1.t = "num" THEN Unspec(m, "string.format with a number as format")
+         ELSE LET r == FmtGo(FmtParse(a1.s), 1, args, 2, "") IN
+              IF r[1] = "ok" THEN Ret1(m, Str(r[2])) ELSE IF r[1] = "err" THEN Err(m, r[2]) ELSE Unspec(m, r[2])
+    [] name = "string.len" ->
+         IF a1.t = "str" THEN Ret1(m, NumI(Len(a1.s)))
+         ELSE IF a1.t = "num" THEN LET r == NumToStr(D(a1)) IN IF r[1] THEN Ret1(m, NumI(Len(r[2]))) ELSE Unspec(m, "number formatting")
+         ELSE Err(m, "bad argument to string.len")
+    [] name = "string.rep" -> Unspec(m, "string.rep is not modelled")
+    [] name = "table.insert" ->
+         IF na < 1 \/ a1.t # "tab" THEN Err(m, "bad argument to table.insert")
+         ELSE IF na # 2 /\ na # 3 THEN Err(m, "wrong number of arguments to table.insert")
+         ELSE IF a1.hi <= DebugId THEN Unspec(m, "table.insert on the global/library table")
+         ELSE LET t == m.heap[a1.hi] IN LET n == Border(t) IN
+              IF n < 0 THEN Unspec(m, "table.insert: border of a table with holes")
+              ELSE IF na = 2 THEN (IF a2.t = "nil" THEN RetV(m, <<>>) ELSE RetV([m EXCEPT !.heap[a1.hi] = RawSetT(@, NumI(n + 1), a2)], <<>>))
+              ELSE IF a2.t # "num" THEN (IF ToNum(a2)[1] = "no" THEN Err(m, "bad argument #2 to table.insert") ELSE Unspec(m, "table.insert with a string position"))
+              ELSE IF ~IsIntV(a2) THEN Unspec(m, "table.insert with a non-integer position")
+              ELSE LET pos == IntOf(a2) IN
+                   IF pos < 1 \/ pos > n + 1 THEN Unspec(m, "table.insert: position out of bounds")
+                   ELSE IF a3.t = "nil" /\ pos <= n THEN Unspec(m, "table.insert of nil (creates a hole)")
+                   ELSE RetV([m EXCEPT !.heap[a1.hi] = InsertShift(t, n + 1, pos, a3)], <<>>)
+    [] name = "table.concat" ->
+         IF na < 1 \/ a1.t # "tab" THEN Err(m, "bad argument to table.concat")
+         ELSE IF na > 2 \/ a2.t \notin {"nil", "str"} \/ a1.hi <= DebugId THEN Unspec(m, "table.concat: only (t [, sep]) is modelled")
+         ELSE LET t == m.heap[a1.hi] IN LET n == Border(t) IN
+              IF n < 0 THEN Unspec(m, "table.concat: border of a table with holes")
+              ELSE LET r == ConcatGo(t, 1, n, IF a2.t = "str" THEN a2.s ELSE "", "") IN
+                   IF r[1] THEN Ret1(m, Str(r[2])) ELSE Unspec(m, "table.concat: element is not a string or a definite number")
+    [] name = "debug.profilebegin" \/ name = "debug.profileend" ->
+         IF m.cfg.profile = "noop" THEN RetV(m, <<>>)
+         ELSE IF AnySpecial(m, args) THEN Unspec(m, "global/library table passed to an external function")
+         ELSE RetV([m EXCEPT !.log = Append(m.log, [f |-> name, a |-> RenderAll(m, args)])], <<>>)
+    [] name = "require" ->
+         IF a1.t # "str" THEN Err(m, "require: argument is not a string")
+         ELSE LET r == FindReq(P.req, a1.s, 1) IN LET c == FindLoaded(m.loaded, a1.s, 1) IN
+              IF r = 0 THEN Err(m, "require: unknown module " \o a1.s)
+              ELSE IF c # 0 THEN (IF m.loaded[c].done THEN Ret1(m, m.loaded[c].v) ELSE Err(m, "require: cycle through " \o a1.s))
+              ELSE LET m1 == [m EXCEPT !.loaded = Append(@, [s |-> a1.s, v |-> Nil, nret |-> 0, done |-> FALSE])] IN
+                   LET m2 == PushK(m1, Frame("reqret", 0, Len(m1.loaded), <<>>, m.env)) IN
+                   LET m3 == NewScopeIn(m2, 1, TRUE, <<>>) IN
+                   EnterBlock(P, m3, P.req[r].root, m3.env)
+    [] OTHER -> Err(m, "unknown builtin " \o name)
+
+Call(P, m, f, args) ==
+  IF f.t = "ext" THEN ExtCall(m, f.s, args)
+  ELSE IF f.t = "fn" THEN
+    LET c == m.clos[f.hi] IN
+    LET fnode == Node(P, c.fn) IN
+    LET ps == IF c.self THEN <<"self">> \o fnode.ns ELSE fnode.ns IN
+    LET np == Len(ps) IN
+    LET extra == IF fnode.c = 1 /\ Len(args) > np THEN SubSeq(args, np + 1, Len(args)) ELSE <<>> IN
+    LET m1 == PushK(m, Frame("callret", 0, 0, <<>>, m.env)) IN
+    LET m2 == NewScopeIn(m1, c.env, TRUE, extra) IN
+    EnterBlock(P, DeclareAll(m2, ps, args, 1), fnode.b, m2.env)
+  ELSE IF f.t = "bi" THEN CallBi(P, m, f.s, args)
+  ELSE LET h == Meta(m, f, "__call") IN
+       IF h.t = "nil" THEN Err(m, "attempt to call a " \o TypeName(f) \o " value")
+       ELSE IF IsFunc(h) THEN CallMeta(P, m, h, <<f>> \o args)
+       ELSE IF Meta(m, h, "__call").t # "nil" THEN Unspec(m, "__call handler is itself a callable table (5.1 does not chain)")
+       ELSE Err(m, "attempt to call a " \o TypeName(f) \o " value")
+Call1(P, m, f, args) == CallWith(P, m, "one", f, args)
+MkClosure(m, fnode, self) == [m EXCEPT !.clos = Append(m.clos, [fn |-> fnode, env |-> m.env, self |-> self])]
+
+\* ================================================================ indexing with metamethods
+RECURSIVE GetIndex(_, _, _, _, _), SetIndex(_, _, _, _, _, _)
+\* delivers <<value>> to the top frame
+GetIndex(P, m, o, k, depth) ==
+  IF depth > 50 THEN Unspec(m, "__index chain too long")
+  ELSE IF o.t = "tab" THEN
+    IF RawGetUnmodelled(m, o.hi, k) THEN Unspec(m, "unmodelled standard library member or global")
+    ELSE
+    LET raw == RawGet(m, o.hi, k) IN
+    IF raw.t # "nil" THEN Ret1(m, raw)
+    ELSE LET h == Meta(m, o, "__index") IN
+         IF h.t = "nil" THEN Ret1(m, Nil)
+         ELSE IF IsFunc(h) THEN CallMetaWith(P, m, "one", h, <<o, k>>)
+         ELSE GetIndex(P, m, h, k, depth + 1)
+  ELSE IF o.t = "str" THEN Unspec(m, "indexing a string (string library is not modelled)")
+  ELSE Err(m, "attempt to index a " \o TypeName(o) \o " value")
+\* continues with mode "N" when done
+SetIndex(P, m, o, k, v, depth) ==
+  IF depth > 50 THEN Unspec(m, "__newindex chain too long")
+  ELSE IF o.t = "tab" THEN
+    LET raw == RawGet(m, o.hi, k) IN
+    LET h == Meta(m, o, "__newindex") IN
+    IF raw.t # "nil" \/ h.t = "nil"
+    THEN IF k.t = "nil" \/ IsNaNV(k) THEN Err(m, "table index is nil or NaN")
+         ELSE Done([m EXCEPT !.heap[o.hi] = RawSetT(@, k, v)])
+    ELSE IF IsFunc(h) THEN CallMetaWith(P, m, "drop", h, <<o, k, v>>)
+    ELSE SetIndex(P, m, h, k, v, depth + 1)
+  ELSE Err(m, "attempt to index a " \o TypeName(o) \o " value")
+GlobalGet(P, m, name) == GetIndex(P, m, Tab(GlobId), Str(name), 0)
+SetVar(P, m, name, v) ==
+  LET l == LookupLoc(m.envs, m.env, name) IN
+  IF l # 0 THEN Done([m EXCEPT !.store[l] = v]) ELSE SetIndex(P, m, Tab(GlobId), Str(name), v, 0)
+
+\* a local variable operand that the implementations keep in its register (not copied) was
+\* re-assigned while a later operand was evaluated: the abstract left-to-right value is stale
+RECURSIVE StripParen(_, _)
+StripParen(P, n) == IF Node(P, n).k \in {"paren", "cast", "tinst"} THEN StripParen(P, Node(P, n).a) ELSE n
+LocalStale(P, m, n, v) ==
+  LET x == Node(P, StripParen(P, n)) IN
+  x.k = "var" /\ LET l == LookupLoc(m.envs, m.env, x.s) IN l # 0 /\ m.store[l] # v
+
+\* ================================================================ binary operators (operands already evaluated)
+Compare(P, m, op, a, b, neg) ==         \* op is "<" or "<="; neg: result negated (never used for 5.1 order ops, kept FALSE)
+  IF a.t = "num" /\ b.t = "num" THEN Ret1(m, Bool(IF op = "<" THEN FLt(D(a), D(b)) ELSE FLe(D(a), D(b))))
+  ELSE IF a.t = "str" /\ b.t = "str" THEN Ret1(m, Bool(IF op = "<" THEN StrLt(a.s, b.s) ELSE (a.s = b.s \/ StrLt(a.s, b.s))))
+  ELSE LET ev == ArithEvent(op) IN LET h1 == Meta(m, a, ev) IN LET h2 == Meta(m, b, ev) IN
+       IF h1.t = "nil" /\ h2.t = "nil" THEN
+            IF op = "<=" /\ (Meta(m, a, "__lt").t # "nil" \/ Meta(m, b, "__lt").t # "nil")
+            THEN Unspec(m, "__le absent, __lt present (5.1 falls back to not __lt(b, a))")
+            ELSE Err(m, "attempt to compare " \o TypeName(a) \o " with " \o TypeName(b))
+       ELSE IF a.t = "tab" /\ b.t = "tab" /\ h1 = h2 THEN CallMetaWith(P, m, "tobool", h1, <<a, b>>)
+       ELSE Unspec(m, "order metamethod: operands of different types or with different handlers")
+
+BinOp(P, m, op, a, b) ==
+  IF op \in ArithOps THEN
+    LET x == ToNum(a) IN LET y == ToNum(b) IN
+    IF x[1] = "ok" /\ y[1] = "ok" THEN
+      LET r == Arith(op, <<x[2], x[3]>>, <<y[2], y[3]>>) IN
+      IF r[1] THEN Ret1(m, NumD(r[2])) ELSE Unspec(m, "arithmetic corner case where Lua 5.1 and Luau may differ: " \o op)
+    ELSE IF x[1] # "no" /\ y[1] # "no" THEN Unspec(m, "string->number coercion")
+    ELSE LET ev == ArithEvent(op) IN
+         LET h1 == Meta(m, a, ev) IN LET h == IF h1.t # "nil" THEN h1 ELSE Meta(m, b, ev) IN
+         IF h.t = "nil" THEN Err(m, "attempt to perform arithmetic on a " \o TypeName(IF x[1] = "no" THEN a ELSE b) \o " value")
+         ELSE IF op = "//" THEN Unspec(m, "__idiv is Luau-only")
+         ELSE CallMetaWith(P, m, "one", h, <<a, b>>)
+  ELSE IF op = ".." THEN
+    IF a.t \in {"str", "num"} /\ b.t \in {"str", "num"} THEN
+      LET sa == IF a.t = "num" THEN NumToStr(D(a)) ELSE <<TRUE, a.s>> IN
+      LET sb == IF b.t = "num" THEN NumToStr(D(b)) ELSE <<TRUE, b.s>> IN
+      IF sa[1] /\ sb[1] THEN Ret1(m, Str(sa[2] \o sb[2])) ELSE Unspec(m, "number formatting in concatenation")
+    ELSE LET h1 == Meta(m, a, "__concat") IN LET h == IF h1.t # "nil" THEN h1 ELSE Meta(m, b, "__concat") IN
+         IF h.t = "nil" THEN Err(m, "attempt to concatenate a " \o TypeName(IF a.t \in {"str", "num"} THEN b ELSE a) \o " value")
+         ELSE CallMetaWith(P, m, "one", h, <<a, b>>)
+  ELSE IF op \in {"==", "~="} THEN
+    IF ~(a.t = "tab" /\ b.t = "tab") \/ RawEq(a, b) THEN Ret1(m, Bool((op = "==") = RawEq(a, b)))
+    ELSE LET h1 == Meta(m, a, "__eq") IN LET h2 == Meta(m, b, "__eq") IN
+         IF h1.t = "nil" /\ h2.t = "nil" THEN Ret1(m, Bool(op = "~="))
+         ELSE IF h1 # h2 THEN Unspec(m, "__eq: the operands have different handlers")
+         ELSE IF op = "==" THEN CallMetaWith(P, m, "tobool", h1, <<a, b>>)
+         ELSE CallMeta(P, PushK(PushK(m, Frame("not", 0, 0, <<>>, m.env)), Frame("tobool", 0, 0, <<>>, m.env)), h1, <<a, b>>)
+  ELSE IF op = "<" \/ op = "<=" THEN Compare(P, m, op, a, b, FALSE)
+  ELSE IF op = ">" THEN Compare(P, m, "<", b, a, FALSE)
+  ELSE IF op = ">=" THEN Compare(P, m, "<=", b, a, FALSE)
+  ELSE Err(m, "unknown binary operator " \o op)
+
+\* ================================================================ expression lists
+Exprs(P, n, w) == IF w = 1 THEN Node(P, n).l ELSE Node(P, n).m
+\* evaluate list w of node n; the value list is delivered to the frame on top of m
+StartList(P, m, n, w) ==
+  IF Exprs(P, n, w) = <<>> THEN RetV(m, <<>>)
+  ELSE Go(PushK(m, Frame("list", n, 1, <<>>, w)), "E", Exprs(P, n, w)[1], <<>>)
+MultiKinds == {"call", "mcall", "vararg"}
+EvalOne(P, m, n) == IF Node(P, n).k \in MultiKinds THEN Go(PushK(m, Frame("one", n, 0, <<>>, m.env)), "E", n, <<>>)
+                    ELSE Go(m, "E", n, <<>>)
+FrameE(m, k, n, i, vs, e) == Go(PushK(m, Frame(k, n, i, vs, m.env)), "E", e, <<>>)
+
+\* table constructor: start entry i of node n (table value t, next positional index pos)
+TabEntry(P, m, n, i, t, pos) ==
+  LET e == Node(P, Node(P, n).l[i]) IN
+  IF e.k = "tkey" THEN FrameE(m, "tabK", n, i, <<t, NumI(pos)>>, e.a)
+  ELSE IF e.k = "tnamed" THEN FrameE(m, "tab", n, i, <<t, NumI(pos), Str(e.s)>>, e.a)
+  ELSE FrameE(m, "tab", n, i, <<t, NumI(pos), Nil>>, e.a)
+RECURSIVE SetPositional(_, _, _, _)
+SetPositional(t, pos, vals, j) ==       \* <<ok, table>>; not ok: slot already taken
+  IF j > Len(vals) THEN <<TRUE, t>>
+  ELSE IF RawGetT(t, NumI(pos + j - 1)).t # "nil" THEN <<FALSE, t>>
+  ELSE SetPositional(RawSetT(t, NumI(pos + j - 1), vals[j]), pos, vals, j + 1)
+
+\* interpolated string: continue with segment i, acc = text so far
+RECURSIVE InterpNext(_, _, _, _, _)
+InterpNext(P, m, n, i, acc) ==
+  LET segs == Node(P, n).l IN
+  IF i > Len(segs) THEN Ret1(m, Str(acc))
+  ELSE LET sg == Node(P, segs[i]) IN
+       IF sg.k = "istr" THEN InterpNext(P, m, n, i + 1, acc \o sg.s)
+       ELSE Go(PushK(PushK(m, Frame("interp", n, i, <<Str(acc)>>, m.env)), Frame("tostrv", n, 0, <<>>, m.env)), "E", sg.a, <<>>)
+
+\* ================================================================ Eval: ctl = <<"E", node>>
+Eval(P, m, n) ==
+  LET nd == Node(P, n) IN
+  CASE nd.k = "nil"   -> Ret1(m, Nil)
+    [] nd.k = "true"  -> Ret1(m, Bool(TRUE))
+    [] nd.k = "false" -> Ret1(m, Bool(FALSE))
+    [] nd.k = "num"   -> Ret1(m, Val("num", nd.hi, nd.lo, ""))
+    [] nd.k = "str"   -> Ret1(m, Str(nd.s))
+    [] nd.k = "vararg" -> RetV(m, VarArgs(m.envs, m.env))
+    [] nd.k = "var"   -> LET l == LookupLoc(m.envs, m.env, nd.s) IN
+                         IF l # 0 THEN Ret1(m, m.store[l]) ELSE GlobalGet(P, m, nd.s)
+    [] nd.k = "fn"    -> Ret1(MkClosure(m, n, FALSE), Fn(Len(m.clos) + 1))
+    [] nd.k \in {"paren", "cast", "tinst"} -> EvalOne(P, m, nd.a)
+    [] nd.k = "bin"   -> FrameE(m, "binL", n, 0, <<>>, nd.a)
+    [] nd.k \in {"and", "or"} -> FrameE(m, nd.k, n, 0, <<>>, nd.a)
+    [] nd.k \in {"not", "neg", "len"} -> FrameE(m, nd.k, n, 0, <<>>, nd.a)
+    [] nd.k = "call"  -> FrameE(m, "callF", n, 0, <<>>, nd.a)
+    [] nd.k = "mcall" -> FrameE(m, "mcallO", n, 0, <<>>, nd.a)
+    [] nd.k = "index" -> FrameE(m, "idxO", n, 0, <<>>, nd.a)
+    [] nd.k = "field" -> FrameE(m, "fldO", n, 0, <<>>, nd.a)
+    [] nd.k = "table" -> LET m1 == NewTable(m) IN LET t == Tab(Len(m1.heap)) IN
+                         IF nd.l = <<>> THEN Ret1(m1, t) ELSE TabEntry(P, m1, n, 1, t, 1)
+    [] nd.k = "ifexp" -> FrameE(m, "ifeC", n, 0, <<>>, nd.a)
+    [] nd.k = "interp" -> InterpNext(P, m, n, 1, "")
+    [] OTHER -> Err(m, "eval: unknown node kind " \o nd.k)
